@@ -87,6 +87,8 @@ def peel(t):
 
 def _const_int(t):
     t = peel(t)
+    if t.op == "named" and len(t.a) > 2 and isinstance(t.a[2], T):
+        t = t.a[2]
     if t.op == "const" and t.a[0] == "int":
         return t.a[1]
     return None
@@ -595,3 +597,105 @@ def events(t):
         break
     evs.reverse()
     return t, evs
+
+
+# ---------------------------------------------------------------------------
+# slice algebra: which part of which buffer does a slice expression denote?
+
+
+def int_form(t, wrap=False):
+    """usize term -> length form (("c",k) | ("len",x) | ("t",x) | ("add",a,b) | ("sub",a,b)); `len` of a slice
+    expression is expanded to end - start.  With wrap=True the plain (unchecked, wrapping in release builds) `+`/`-`
+    are kept as ("wadd"/"wsub", a, b, term): they equal the mathematical result only when no wrap-around can
+    happen, which the caller has to establish (resolve_wrapping)."""
+    t = peel(t)
+    ci = _const_int(t)
+    if ci is not None:
+        return ("c", ci)
+    if (t.op == "call" and cname(t) in ("slice::<impl [T]>::len", "Vec::<T, A>::len") and len(t.a[1]) == 1) or t.op == "len":
+        x = t.a[1][0] if t.op == "call" else t.a[0]
+        sn = slice_form(x, wrap)
+        if sn is not None:
+            return ("sub", sn[2], sn[1])
+        return ("len", strip_sites(peel(x)))
+    if t.op == "field" and t.a[1] == "0" and t.a[0].op == "bin" and t.a[0].a[0] in ("AddWithOverflow", "SubWithOverflow"):
+        # checked form: the Assert on `.1` precedes every use of `.0`, so `.0` is the exact result
+        return ("add" if t.a[0].a[0].startswith("Add") else "sub", int_form(t.a[0].a[1], wrap), int_form(t.a[0].a[2], wrap))
+    if t.op == "bin" and t.a[0] in ("Add", "AddUnchecked", "Sub", "SubUnchecked"):
+        k = "add" if t.a[0].startswith("Add") else "sub"
+        if wrap and t.a[0] in ("Add", "Sub"):
+            return ("w" + k, int_form(t.a[1], wrap), int_form(t.a[2], wrap), strip_sites(t))
+        return (k, int_form(t.a[1], wrap), int_form(t.a[2], wrap))
+    return ("t", strip_sites(t))
+
+
+def resolve_wrapping(form, exact):
+    """Replace ("wadd"/"wsub", a, b, term) by the exact operation when `term` is in `exact`, else by an opaque atom."""
+    if not isinstance(form, tuple):
+        return form
+    if form[0] in ("wadd", "wsub"):
+        a, b = resolve_wrapping(form[1], exact), resolve_wrapping(form[2], exact)
+        if form[3] in exact:
+            return (form[0][1:], a, b)
+        return ("t", form[3])
+    if form[0] in ("add", "sub"):
+        return (form[0], resolve_wrapping(form[1], exact), resolve_wrapping(form[2], exact))
+    return form
+
+
+def wrapping_nodes(form, out=None):
+    out = [] if out is None else out
+    if isinstance(form, tuple) and form and form[0] in ("wadd", "wsub", "add", "sub"):
+        wrapping_nodes(form[1], out)
+        wrapping_nodes(form[2], out)
+        if form[0] in ("wadd", "wsub"):
+            out.append(form)
+    return out
+
+
+def slice_form(x, wrap=False):
+    """(base, start, end) with start/end length forms, for index/split_at/sub-slice expressions; None for a plain value."""
+    x = peel(x)
+    int_form_ = lambda t: int_form(t, wrap)
+    def whole(b):
+        sb = slice_form(b, wrap)
+        if sb is not None:
+            return sb
+        bb = strip_sites(peel(b))
+        return (bb, ("c", 0), ("len", bb))
+    if x.op == "call" and cname(x) in ("Index::index", "IndexMut::index_mut") and len(x.a[1]) == 2:
+        rk = peel(x.a[1][1])
+        if not (rk.op == "agg" and rk.a[0][0] == "adt"):
+            return None
+        base, s0, e0 = whole(x.a[1][0])
+        name, ops = rk.a[0][1], rk.a[1]
+        if name == "RangeTo":
+            return (base, s0, ("add", s0, int_form_(ops[0])))
+        if name == "RangeFrom":
+            return (base, ("add", s0, int_form_(ops[0])), e0)
+        if name == "Range":
+            return (base, ("add", s0, int_form_(ops[0])), ("add", s0, int_form_(ops[1])))
+        if name == "RangeFull":
+            return (base, s0, e0)
+        return None
+    if x.op == "field" and x.a[1] in ("0", "1"):
+        c = x.a[0]
+        while c.op in ("ref", "deref"):
+            c = c.a[0]
+        if c.op == "call" and cname(c) in ("slice::<impl [T]>::split_at", "slice::<impl [T]>::split_at_mut", "slice::<impl [T]>::split_at_checked") and len(c.a[1]) == 2:
+            base, s0, e0 = whole(c.a[1][0])
+            mid = ("add", s0, int_form_(c.a[1][1]))
+            return (base, s0, mid) if x.a[1] == "0" else (base, mid, e0)
+    if x.op == "subslice" and x.a[3] is True and isinstance(x.a[1], int) and isinstance(x.a[2], int):
+        base, s0, e0 = whole(x.a[0])
+        return (base, ("add", s0, ("c", x.a[1])), ("sub", e0, ("c", x.a[2])))
+    return None
+
+
+def lin_eq(a, b):
+    return _lin_eq(a, b)
+
+
+def lin_sub(a, b):
+    l = _lin_sub(a, b)
+    return _unlin(l) if l is not None else None
